@@ -55,21 +55,30 @@ def z(x):
     return _rv(_frac(x))
 
 
-def eq(a, b):
-    """cross-multiplied equality of two real-valued scalars as a z3 Bool."""
-    a = SymReal.lift(a)
-    r = (a == b)
+def scalar(x):
+    """unwrap 0-d / size-1 arrays returned by numpy reductions."""
+    if isinstance(x, np.ndarray):
+        if x.size != 1:
+            raise HarnessError(f"expected a scalar, got array of shape {x.shape}")
+        return x.reshape(-1)[0]
+    return x
+
+
+def _b(r):
     return r.z if isinstance(r, SymBool) else z3.BoolVal(bool(r))
 
 
+def eq(a, b):
+    """cross-multiplied equality of two real-valued scalars as a z3 Bool."""
+    return _b(SymReal.lift(scalar(a)) == SymReal.lift(scalar(b)))
+
+
 def le(a, b):
-    r = (SymReal.lift(a) <= b)
-    return r.z
+    return _b(SymReal.lift(scalar(a)) <= SymReal.lift(scalar(b)))
 
 
 def lt(a, b):
-    r = (SymReal.lift(a) < b)
-    return r.z
+    return _b(SymReal.lift(scalar(a)) < SymReal.lift(scalar(b)))
 
 
 def fl(x) -> float:
